@@ -124,8 +124,16 @@ class Exec:
             outs = self.eval_multi(st.value, env)
             res = []
             for e, v in outs:
+                if len(self.ctx.stack) == 2 and len(st.targets) == 1 and isinstance(st.targets[0], ast.Name):
+                    old_ = e.vars.get(st.targets[0].id)
+                    if isinstance(old_, Str) and ('input', old_.sid) in e.facts and not (isinstance(v, Str) and v.sid == old_.sid):
+                        self.note_input_coverage(e)      # the canonical input is about to be rebound: take stock now
                 for t in st.targets:
                     self.assign(t, v, e, st)
+                if len(self.ctx.stack) == 2 and isinstance(v, Str) and len(st.targets) == 1 and isinstance(st.targets[0], ast.Name) \
+                        and not any(isinstance(f, tuple) and f and f[0] == 'input' for f in e.facts):
+                    # the first string bound in the entry function: the canonical form of the input
+                    e.facts = e.facts | {('input', v.sid)}
                 res.append(e)
             return res, []
         if isinstance(st, ast.AugAssign):
@@ -145,6 +153,9 @@ class Exec:
                         outs.append(('return', e, Bool(truth)))
                 return [], outs
             outs = self.eval_multi(st.value, env)
+            if len(self.ctx.stack) == 2:
+                for e, v in outs:
+                    self.note_input_coverage(e)
             return [], [('return', e, v) for e, v in outs if not e.dead]
         if isinstance(st, ast.Raise):
             self.do_raise(st, env)
@@ -186,6 +197,55 @@ class Exec:
         ctx.unsup(st, 'stmt ' + type(st).__name__)
         return [env], []
 
+    def note_input_coverage(self, e):
+        """At a return of the entry function: which characters of the canonical input were never handed to a
+        check digit algorithm / generator / comparison on this path."""
+        sids = [f[1] for f in e.facts if isinstance(f, tuple) and f and f[0] == 'input']
+        if not sids:
+            return
+        s = e.find_sid(sids[0])
+        if s is None:
+            return
+        if any(isinstance(f, tuple) and f and f[0] == 'uncov' for f in e.facts):
+            return
+        covered = set()
+        for f in e.facts:
+            if isinstance(f, tuple) and f and f[0] == 'cov':
+                covered.update(f[3:])
+        from .strops import DERIVED, ORIGIN
+        # a summary cell (body of a concatenation, loop element) that was handed over covers the cells it summarises
+        todo = list(covered)
+        while todo:
+            d0 = todo.pop()
+            dd = DERIVED.get(d0)
+            for p, _inv in ((dd if isinstance(dd, list) else [dd]) if dd else []):
+                if not isinstance(p, frozenset) and p not in covered:
+                    covered.add(p)
+                    todo.append(p)
+        unc = []
+        cells = s.cells()
+        for i, c in enumerate(cells):
+            if isinstance(c, frozenset) or c in covered:
+                continue
+            ex = self.B.exact_chars(e.cls(c))
+            if ex is not None and len(ex) <= 1:
+                continue
+            d = DERIVED.get(c)
+            srcs = [p for p, _inv in (d if isinstance(d, list) else [d])] if d else []
+            if srcs and all(p in covered for p in srcs):
+                continue
+            o = c
+            hit = False
+            while o in ORIGIN:
+                o = ORIGIN[o]
+                if o in covered:
+                    hit = True
+                    break
+            if hit:
+                continue
+            unc.append((i if s.fixed or i < len(s.pre) else i - len(cells), self.B.describe(e.cls(c))[:24]))
+        e.facts = e.facts | {('uncov', tuple(unc), self.ctx.S.describe(e, s)[:80])}
+
     PRED_FUNCS = {'bool', 'all', 'any'}
     PRED_METHODS = {'startswith', 'endswith', 'isdigit', 'isalpha', 'isalnum', 'isdecimal', 'isspace'}
 
@@ -208,6 +268,24 @@ class Exec:
         if isinstance(node, ast.Call) and not any(isinstance(a, ast.Starred) for a in node.args):
             fn = self.eval(node.func, env)
             if isinstance(fn, Func) and (fn.mod, fn.name) not in self.SUMMARISED:
+                # a nested repo call in argument position keeps its return paths apart as well: f(g(x))
+                nested = [i for i, a in enumerate(node.args) if isinstance(a, ast.Call) and not any(isinstance(x, ast.Starred) for x in a.args)
+                          and isinstance(self.eval(a.func, env.copy()), Func) and (self.eval(a.func, env.copy()).mod, self.eval(a.func, env.copy()).name) not in self.SUMMARISED]
+                if len(nested) == 1 and len(node.args) <= 3:
+                    i0 = nested[0]
+                    res = []
+                    for e1, v1 in self.eval_multi(node.args[i0], env):
+                        args = [v1 if j == i0 else self.eval(a, e1) for j, a in enumerate(node.args)]
+                        kwargs = {k.arg: self.eval(k.value, e1) for k in node.keywords if k.arg is not None}
+                        if e1.dead:
+                            continue
+                        outs = self.call_func(fn, args, kwargs, node, e1, multi=True)
+                        if outs is None or isinstance(outs, list) is False:
+                            if not e1.dead:
+                                res.append((e1, outs))
+                        else:
+                            res.extend(outs)
+                    return self.cap_pairs(res)
                 args = [self.eval(a, env) for a in node.args]
                 kwargs = {k.arg: self.eval(k.value, env) for k in node.keywords if k.arg is not None}
                 if env.dead:
